@@ -57,6 +57,8 @@ def plan(tier, seed):
     for i in range(8):
         specs.append({"name": f"random-{i}", "kind": "random", "n": 3000 if q else 120000})
     specs.append({"name": "scaling", "kind": "scaling", "repeats": 5 if q else 15})
+    for i in range(2 if q else 8):
+        specs.append({"name": f"session-{i}", "kind": "session", "n": 700 if q else 6000})
     return specs
 
 
@@ -94,6 +96,8 @@ def execute(rec: Recorder, cache, data: bytes, label: str, loop=None, mode: str 
     from dpapi_ng import _blob
 
     wit = {"input": data, "len": len(data), "label": label, "api": mode}
+    if label.startswith("session"):
+        wit["kind"] = "session"  # history dependent: replayed by re-running the shard
     budget = 4000 + 60 * len(data)
     mon.KDFS.n, mon.KDFS.limit = 0, KDF_BUDGET
     if track_mem:
@@ -213,6 +217,55 @@ def run_keyid(spec, rec: Recorder):
                 rec.seen("keyid_cases", label.split("=")[0])
         rec.sample({"bases": spec["bases"], "kind": "key identifier / key_info / SID / parameter boundary values", "example": label})
         rec.mark_exhaustive("listed key identifier boundary values x listed base blobs")
+    finally:
+        loop.close()
+
+
+def run_session(spec, rec: Recorder):
+    """"For every byte string" includes every byte string given to a process that has already handled others: ONE cache
+    (one root key, later a second) is kept across a long stream of valid blobs at hundreds of distinct L0 values, blobs
+    with out-of-range positions for L0 values the cache already knows, bit-flipped blobs and garbage.  Every call must end
+    in one of the allowed ways whatever the cache has accumulated."""
+    import uuid as _uuid
+
+    import dpapi_ng
+    from vf.props import online
+
+    rng = common.rng_for(ID, spec)
+    loop = asyncio.new_event_loop()
+    asyncio.set_event_loop(loop)
+    try:
+        rkid = _uuid.UUID(int=rng.getrandbits(128))
+        rk = online.root_key(rng, rng.choice(common.HASHES), "DH")
+        cache = dpapi_ng.KeyCache()
+        online.load_into_cache(cache, rkid, rk)
+        sids = [online.gen_sid(rng, n=k) for k in (1, 3, 5)]
+        l0s: t.List[int] = []
+        for i in range(spec["n"]):
+            r = rng.random()
+            if r < 0.55 or not l0s:
+                l0 = 100 + len(l0s) if rng.random() < 0.7 or not l0s else rng.choice(l0s)
+                if l0 not in l0s:
+                    l0s.append(l0)
+                data = online.ref_blob(rng, rkid, rk, rng.choice(sids[:1] if i % 3 else sids), (l0, rng.randrange(32), rng.randrange(32)), "nonce", b"s", in_envelope=rng.random() < 0.7, domain="s.test")
+                label = f"session valid blob at L0 {l0}"
+            elif r < 0.75:
+                l0 = rng.choice(l0s)
+                bad = rng.choice([(32, 0), (40, 3), (255, 255), (0, 32), (31, 2**31), (2**32 - 1, 0)])
+                data = online.ref_blob(rng, rkid, rk, sids[0], (l0, 3, 3), "nonce", b"s", domain="s.test")
+                data = mutate.with_position(data, l0, bad[0], bad[1]) if hasattr(mutate, "with_position") else data
+                label = f"session out-of-range position {bad} at known L0 {l0}"
+            elif r < 0.9:
+                data = online.ref_blob(rng, rkid, rk, sids[0], (rng.choice(l0s), rng.randrange(32), rng.randrange(32)), "nonce", b"s", domain="s.test")
+                data = mutate.flip(data, rng.randrange(len(data) * 8))
+                label = "session bit flip"
+            else:
+                data = rng.randbytes(rng.choice([0, 1, 40, 300]))
+                label = "session random bytes"
+            execute(rec, cache, data, f"{label} (call {i}, {len(l0s)} L0s on the cache)", loop, "async" if i % 5 == 4 else "sync")
+            rec.count("session_calls")
+        rec.range("session_distinct_l0", len(l0s))
+        rec.sample({"kind": "session on one cache", "calls": spec["n"], "distinct_l0": len(l0s)})
     finally:
         loop.close()
 
@@ -340,7 +393,7 @@ def run_shard(spec, rec: Recorder):
     if spec["kind"] == "scaling":
         run_scaling(spec, rec)
         return
-    {"flips": run_flips, "structural": run_structural, "keyid": run_keyid, "random": run_random}[spec["kind"]](spec, rec)
+    {"flips": run_flips, "structural": run_structural, "keyid": run_keyid, "random": run_random, "session": run_session}[spec["kind"]](spec, rec)
 
 
 def replay(body, rec: Recorder):
